@@ -57,6 +57,10 @@ def make_res(rng):
     if not any(l.upper().startswith(('L.S.', 'CGLS')) for l in lines):      # a refinement job has a cycles instruction
         fv = [i for i, l in enumerate(lines) if l.upper().startswith('FVAR')][0]
         lines.insert(fv, rng.choice(['L.S. 10', 'CGLS 5', 'L.S. 4 0 2', 'L.S. 10 0 12', 'CGLS 8 0 3', 'L.S. 6 2']))
+    elif rng.random() < 0.35:
+        # the last cycles instruction of the job with nrf = 0 and a number of extra parameters (a squeezed structure)
+        last = [i for i, l in enumerate(lines) if l.upper().startswith(('L.S.', 'CGLS'))][-1]
+        lines[last] = '%s %d 0 %d' % (lines[last].split()[0], rng.randint(1, 20), rng.randint(1, 30))
     return '\n'.join(lines) + '\n'
 
 
